@@ -15,4 +15,5 @@ void mcint_atomic_point();
 bool mcint_block(bool (*enabled)(void *), void *arg, uint64_t deadlineNs, const char *what);
 int mcint_tid();
 int mcint_nthreads();
+const char *mcint_thread_label(int t);
 [[noreturn]] void mcint_internal_error(const char *what);
